@@ -12,6 +12,9 @@ package lexer
 //@ axiom nlS: forall s string, i int :: 0 <= i && i < len(s) ==> nl(s, i+1) == nl(s, i) + ite(s[i] == '\n', 1, 0)
 
 //@ pred lline(l *Lexer) = l.curLine == 1 + nl(l.input, min(l.readPosition, len(l.input)))
+// outside a tag, literal text never starts right after a backslash that belongs to the previous text
+//@ pred lhtml(l *Lexer) = l.inside || l.position == 0 || l.ch == 0 || (l.position-1 < len(l.input) && l.input[l.position-1] != '\\') ||
+//@     (l.position+1 < len(l.input) && l.input[l.position] == '<' && l.input[l.position+1] == '%')
 //@ pred linv(l *Lexer) = l.readPosition >= 1 && l.position == l.readPosition-1 &&
 //@     (l.position < len(l.input) ==> l.ch == l.input[l.position]) &&
 //@     (l.position >= len(l.input) ==> l.ch == 0) && lline(l)
@@ -30,14 +33,14 @@ package lexer
 //@ assigns nothing
 
 //@ func New
-//@ ensures inv: linv(result) && result.input == input && !result.inside && result.position == 0
+//@ ensures inv: linv(result) && lhtml(result) && result.input == input && !result.inside && result.position == 0
 //@ ensures fresh: fresh(result)
 //@ assigns fresh
 
 //@ func (l *Lexer) prevChar
 //@ requires linv(l) && l.position < len(l.input)
 //@ ensures prev: l.position >= 1 ==> result == l.input[l.position-1]
-//@ ensures first: l.position == 0 ==> result == l.input[0]
+//@ ensures first: l.position == 0 ==> result == 0
 //@ assigns nothing
 
 //@ pred lsame(l *Lexer) = l.input == old(l.input) && l.inside == old(l.inside)
@@ -98,19 +101,38 @@ package lexer
 //@ loop 1: invariant started: (l.position == old(l.position) && l.ch != 0) || (l.position >= position && fuel(l) < old(fuel(l)))
 //@ loop 1: decreases fuel(l)
 
+// C02: literal text. A tag starts at j when in[j..j+1] == "<%"; it is live unless the byte before it
+// (inside this text) is a backslash. The text token contains no live tag start, ends only at the end of
+// the input or at a tag start, and is the scanned slice with every "\<%" replaced by "<%"
+// (for "\\<%": the slice ends after the first backslash and the tag that follows is live).
+//@ pred tagat(s string, j int) = 0 <= j && j+1 < len(s) && s[j] == '<' && s[j+1] == '%'
+//@ pred livetag(s string, p int, j int) = tagat(s, j) && !(j > p && s[j-1] == '\\')
+//@ func (l *Lexer) peekChar2
+//@ requires l.readPosition >= 0
+//@ ensures val: result == ite(l.readPosition+1 < len(l.input), l.input[l.readPosition+1], 0)
+//@ assigns nothing
+
 //@ func (l *Lexer) readHTML
-//@ requires linv(l) && l.ch != 0 && !(l.ch == '<' && peekc(l) == '%')
+//@ requires linv(l) && lhtml(l) && !l.inside && l.ch != 0 && !(l.ch == '<' && peekc(l) == '%')
+//@ ensures start: lhtml(l)
 //@ ensures inv: lprogress(l) && fuel(l) < old(fuel(l))
+//@ ensures nolive: forall j int :: old(l.position) <= j && j < l.position ==> !livetag(l.input, old(l.position), j)
+//@ ensures ends: l.ch == 0 || tagat(l.input, l.position)
+//@ ensures text: (l.position >= 2 && l.position - 2 >= old(l.position) && l.input[l.position-1] == '\\' && l.input[l.position-2] == '\\' && tagat(l.input, l.position) &&
+//@     result == replaceAll(l.input[old(l.position):l.position-1], "\\<%", "<%")) || result == replaceAll(l.input[old(l.position):l.position], "\\<%", "<%")
 //@ assigns l.ch, l.position, l.readPosition, l.curLine, l.inside
 //@ loop 1: invariant linv(l) && l.input == old(l.input) && fuel(l) <= old(fuel(l)) && l.position <= len(l.input) && position == old(l.position) && l.position >= position
 //@ loop 1: invariant started: l.position == old(l.position) ==> !(l.ch == '<' && peekc(l) == '%')
+//@ loop 1: invariant startok: old(l.position) == 0 || l.input[old(l.position)-1] != '\\'
 //@ loop 1: invariant moved: l.position > old(l.position) ==> fuel(l) < old(fuel(l))
+//@ loop 1: invariant nolive: forall j int :: old(l.position) <= j && j < l.position ==> !livetag(l.input, old(l.position), j)
 //@ loop 1: decreases fuel(l)
 
 // C15: a token is stamped with the line on which it begins (tokstart = first non-blank byte);
 // after a # comment the stamp is that of the token that follows (not earlier than the comment).
 //@ func (l *Lexer) nextInsideToken
-//@ requires linv(l)
+//@ requires linv(l) && l.inside
+//@ ensures start: lhtml(l)
 //@ ghost tokstart = l.position after skipWhitespace
 //@ ensures inv: lprogress(l)
 //@ ensures begins: old(l.position) <= tokstart && (forall j int :: old(l.position) <= j && j < tokstart ==> j < len(l.input) && blank(l.input[j]))
@@ -119,13 +141,14 @@ package lexer
 //@ ensures progress: result.Type != token.EOF ==> fuel(l) < old(fuel(l))
 //@ assigns l.ch, l.position, l.readPosition, l.curLine, l.inside
 //@ decreases fuel(l)
-//@ loop 1: invariant linv(l) && l.input == old(l.input) && fuel(l) <= old(fuel(l))
+//@ loop 1: invariant linv(l) && l.inside && l.input == old(l.input) && fuel(l) <= old(fuel(l))
 //@ loop 1: invariant after: tokstart <= l.position && tokstart < len(l.input) && l.input[tokstart] == '#'
 //@ loop 1: invariant once: fuel(l) < old(fuel(l)) || l.ch == '#'
 //@ loop 1: decreases fuel(l)
 
 //@ func (l *Lexer) NextToken
-//@ requires linv(l)
+//@ requires linv(l) && lhtml(l)
+//@ ensures start: lhtml(l)
 //@ ensures inv: lprogress(l)
 //@ ensures progress: result.Type != token.EOF ==> fuel(l) < old(fuel(l))
 //@ assigns l.ch, l.position, l.readPosition, l.curLine, l.inside
